@@ -91,6 +91,7 @@ fn main() {
                 "heap" => vharness::mexec::exec_heap(&m),
                 "qf" => vharness::mexec::exec_qf(&m),
                 "serde" => vharness::mexec::exec_serde(&m),
+                "hll" => vharness::mexec::exec_hll(&m),
                 _ => "{\"error\":\"unknown exec\"}".to_string(),
             };
             println!("{}", out);
